@@ -32,3 +32,6 @@ META = {
   "technique": "runtime monitor: pull-counting / over-read-raising source "
                "probes under a catalogue of stage constructors and chains",
 }
+
+# EXTENSION families added after the seeded-change rounds
+META["rule"] += (" Added after the seeded-change rounds: " 'stages with an intrinsic end (limit, islice with stop) driven to their end; design filters with stream-valued parameters as second sources; heavy-decimation resample entries judged against the exact last-neighbour bound; fractional mixer deltas' ".")
